@@ -19,11 +19,12 @@ class Listing(VC):
     property_id = "C20"
 
     def __init__(self, name, crate, fname, ns, val_ty, key="str", prefix=None, reverse=False, args=None, items=None, key_of=None, check=None,
-                 extra_state=None, eligible=None, extra_crates=(), n=N, cursor_validated=False):
+                 extra_state=None, eligible=None, extra_crates=(), n=N, cursor_validated=False, q=None):
         self.name = f"C20.{name}"
         self.crate, self.fname, self.ns, self.val_ty, self.key, self.prefix, self.reverse = crate, fname, ns, val_ty, key, prefix, reverse
         self.args, self.items, self.key_of, self.check_item, self.extra_state, self.eligible = args, items, key_of, check, extra_state, eligible
         self.extra_crates, self.n, self.cursor_validated = extra_crates, n, cursor_validated
+        self.q = q            # (QueryMsg type, variant, field names builder, json list field, json key field) for the native replay
 
     def run(self, I, ctx, ob):
         crate = self.crate
@@ -88,6 +89,12 @@ class Listing(VC):
         args = self.args(make_deps(False), env, pfx, cur_opt, limit)
         o, r = run_entry(I, ctx, fn(I, self.fname, crate), args, pre)
         ob.outcome = o
+        if self.q is not None:
+            qty, variant, mk, jlist, jkey = self.q
+            names, vals = mk(pfx, cur_opt, limit)
+            ob.info["replay"] = dict(contract=crate, entry="query", crate=crate, env=env, info=None, msg=EnumV(qty.split("::")[-1].split("<")[0], variant, vals, names), msg_ty=qty,
+                                     pre_storage=pre, post_storage=pre, outcome=o, result=None, result_ty=None, querier=None)
+            ob.info["page"] = [self.key_of(I, ctx, it) for it in self.items(I, ctx, r)] if o == "Ok" else None
         ob.require("C20.listing_does_not_fail", o == "Ok")
         if o != "Ok": return
         page = list(self.items(I, ctx, r))
@@ -108,6 +115,26 @@ class Listing(VC):
         ob.witness("after_cursor", has_cursor and len(page) > 0)
         ob.witness("default_limit", lim.variant == "None")
         ob.twin("twin.page_always_empty", len(page) == 0)
+
+
+    def replay(self, I, v):
+        """native query with the same state, cursor and limit: compare the page's key sequence"""
+        from mirsym import findings, replay as rp
+        info = v.info.get("replay")
+        if info is None: return {"reproduced": None, "why": "no native query mapping for this listing"}
+        conc, req = findings.build_step_request(I, v.ctx, v.model, info, I.prog)
+        resp = rp.run(req)
+        qty, variant, mk, jlist, jkey = self.q
+        pred = v.info.get("page")
+        predk = None if pred is None else [conc.string(k) if self.key == "str" else conc.ev(k) for k in pred]
+        nat = None
+        if resp.get("result") == "ok":
+            js = (resp.get("response") or {}).get("json") or {}
+            nat = [(x if jkey is None else x.get(jkey)) for x in js.get(jlist, [])]
+        out = {"request": req, "native": {"result": resp.get("result"), "error": resp.get("error"), "page_keys": nat}, "predicted_page_keys": predk}
+        out["reproduced"] = (nat == predk) and ((resp.get("result") == "ok") == (info["outcome"] == "Ok"))
+        if not out["reproduced"]: out["why"] = "native page differs from the interpreter's page (encoder fault or string-order concretisation)"
+        return out
 
 
 # ------------------------------------------------------------------ adapters
@@ -140,32 +167,42 @@ def listings():
     L = []
     A = lambda d, e, p, c, l: [d, c, l]
     L.append(Listing("cw20.all_accounts", "cw20-base", "query_all_accounts", "balance", "Uint128", args=A,
-                     items=lambda I, ctx, r: r.get("accounts").items, key_of=lambda I, ctx, it: it))
-    for nm, fn_, ns, kf in (("cw20.owner_allowances", "query_owner_allowances", "allowance", "spender"), ("cw20.spender_allowances", "query_spender_allowances", "allowance_spender", "owner")):
+                     items=lambda I, ctx, r: r.get("accounts").items, key_of=lambda I, ctx, it: it,
+                     q=("msg::QueryMsg", "AllAccounts", lambda p, c, l: (["start_after", "limit"], [c, l]), "accounts", None)))
+    for nm, fn_, ns, kf, qv, qf in (("cw20.owner_allowances", "query_owner_allowances", "allowance", "spender", "AllAllowances", "owner"),
+                                    ("cw20.spender_allowances", "query_spender_allowances", "allowance_spender", "owner", "AllSpenderAllowances", "spender")):
         L.append(Listing(nm, "cw20-base", fn_, ns, "AllowanceResponse", prefix="str", args=lambda d, e, p, c, l: [d, p, c, l],
+                         q=("msg::QueryMsg", qv, (lambda qf_: (lambda p, c, l: ([qf_, "start_after", "limit"], [p, c, l])))(qf), "allowances", kf),
                          items=lambda I, ctx, r: r.get("allowances").items, key_of=_f(kf),
                          check=lambda I, ctx, it, s, env: zand(it.get("allowance") == s.get("allowance"), spec_eq(ctx, it.get("expires"), s.get("expires")))))
     L.append(Listing("subkeys.all_allowances", "cw1-subkeys", "query_all_allowances", "allowances", "state::Allowance", args=lambda d, e, p, c, l: [d, e, c, l],
                      items=lambda I, ctx, r: r.get("allowances").items, key_of=_f("spender"), eligible=_unexpired, n=2,
+                     q=("msg::QueryMsg", "AllAllowances", lambda p, c, l: (["start_after", "limit"], [c, l]), "allowances", "spender"),
                      check=lambda I, ctx, it, s, env: zand(spec_eq(ctx, it.get("balance"), s.get("balance")), spec_eq(ctx, it.get("expires"), s.get("expires")))))
     L.append(Listing("subkeys.all_permissions", "cw1-subkeys", "query_all_permissions", "permissions", "state::Permissions", args=A,
                      items=lambda I, ctx, r: r.get("permissions").items, key_of=_f("spender"),
+                     q=("msg::QueryMsg", "AllPermissions", lambda p, c, l: (["start_after", "limit"], [c, l]), "permissions", "spender"),
                      check=lambda I, ctx, it, s, env: spec_eq(ctx, it.get("permissions"), s)))
     for crate, tag in (("cw3-fixed-multisig", "fixed"), ("cw3-flex-multisig", "flex")):
         for rev in (False, True):
             L.append(Listing(f"{tag}.{'reverse' if rev else 'list'}_proposals", crate, "reverse_proposals" if rev else "list_proposals", "proposals", "cw3::Proposal", key="u64", reverse=rev,
                              args=lambda d, e, p, c, l: [d, e, c, l], items=lambda I, ctx, r: r.get("proposals").items, key_of=_f("id"), check=_prop_check,
+                             q=("msg::QueryMsg", "ReverseProposals" if rev else "ListProposals", (lambda rv: (lambda p, c, l: (["start_before" if rv else "start_after", "limit"], [c, l])))(rev), "proposals", "id"),
                              extra_state=_stub_kernel, extra_crates=("cw3",), n=2))
         L.append(Listing(f"{tag}.list_votes", crate, "list_votes", "votes", "cw3::Ballot", prefix="u64", args=lambda d, e, p, c, l: [d, p, c, l], cursor_validated=(tag == "flex"),
                          items=lambda I, ctx, r: r.get("votes").items, key_of=_f("voter"),
+                         q=("msg::QueryMsg", "ListVotes", lambda p, c, l: (["proposal_id", "start_after", "limit"], [p, c, l]), "votes", "voter"),
                          check=lambda I, ctx, it, s, env: zand(it.get("weight") == s.get("weight"), spec_eq(ctx, it.get("vote"), s.get("vote")))))
     L.append(Listing("fixed.list_voters", "cw3-fixed-multisig", "list_voters", "voters", "u64", args=A,
-                     items=lambda I, ctx, r: r.get("voters").items, key_of=_f("addr"), check=lambda I, ctx, it, s, env: it.get("weight") == s))
+                     items=lambda I, ctx, r: r.get("voters").items, key_of=_f("addr"), check=lambda I, ctx, it, s, env: it.get("weight") == s,
+                     q=("msg::QueryMsg", "ListVoters", lambda p, c, l: (["start_after", "limit"], [c, l]), "voters", "addr")))
     for crate, tag, fname in (("cw4-group", "group", "query_list_members"), ("cw4-stake", "stake", "list_members")):
         L.append(Listing(f"{tag}.list_members", crate, fname, "members", "u64", args=A, cursor_validated=True,
-                         items=lambda I, ctx, r: r.get("members").items, key_of=_f("addr"), check=lambda I, ctx, it, s, env: it.get("weight") == s))
+                         items=lambda I, ctx, r: r.get("members").items, key_of=_f("addr"), check=lambda I, ctx, it, s, env: it.get("weight") == s,
+                         q=("msg::QueryMsg", "ListMembers", lambda p, c, l: (["start_after", "limit"], [c, l]), "members", "addr")))
     L.append(Listing("ics20.list_allowed", "cw20-ics20", "list_allowed", "allow_list", "state::AllowInfo", args=A, cursor_validated=True,
                      items=lambda I, ctx, r: r.get("allow").items, key_of=_f("contract"),
+                     q=("msg::QueryMsg", "ListAllowed", lambda p, c, l: (["start_after", "limit"], [c, l]), "allow", "contract"),
                      check=lambda I, ctx, it, s, env: spec_eq(ctx, it.get("gas_limit"), s.get("gas_limit"))))
     return L
 
